@@ -201,16 +201,38 @@ fn run_faults(cx: &mut CaseCx, case: &Value) {
       b
     };
     let pm1 = rm::le24(&(rm::p() - num_bigint::BigUint::from(1u32)));
+    let j_at = enc.len() - 64;
+    let mut variants: Vec<(&str, usize, &str, Vec<u8>)> = vec![];
     for (fname, foff) in [("S.x", 8usize), ("S.y", 32usize)] {
-      for (how, val) in [("= 0", [0u8; 24].to_vec()), ("= 1", one.to_vec()), ("= p-1", pm1.to_vec()), ("= the next share's value", other[foff..foff + 24].to_vec()), ("= the other coordinate", enc[if foff == 8 { 32 } else { 8 }..if foff == 8 { 56 } else { 32 }].to_vec())] {
+      let plus_p = rm::le24(&(rm::from_le(&enc[foff..foff + 24]) + rm::p())).to_vec();
+      for (how, val) in [("= 0", [0u8; 24].to_vec()), ("= 1", one.to_vec()), ("= p-1", pm1.to_vec()), ("= the next share's value", other[foff..foff + 24].to_vec()), ("= the other coordinate", enc[if foff == 8 { 32 } else { 8 }..if foff == 8 { 56 } else { 32 }].to_vec()), ("= the same element + p (second encoding)", plus_p)] {
+        variants.push((fname, foff, how, val));
+      }
+    }
+    // whole-field wipes of the tag
+    variants.push(("J", j_at + 32, "upper half zeroed", vec![0u8; 32]));
+    variants.push(("J", j_at, "lower half zeroed", vec![0u8; 32]));
+    variants.push(("J", j_at, "all zero", vec![0u8; 64]));
+    variants.push(("J", j_at, "halves swapped", [&enc[j_at + 32..], &enc[j_at..j_at + 32]].concat()));
+    variants.push(("J", j_at, "= the next share's tag rotated by 8", { let mut v = other[other.len() - 64..].to_vec(); v.rotate_left(8); v }));
+    variants.push(("J", j_at + 32, "truncated: last 32 bytes cut off", vec![]));
+    {
+      for (fname, foff, how, val) in variants {
         let mut fb = enc.clone();
-        fb[foff..foff + 24].copy_from_slice(&val);
+        if val.is_empty() {
+          fb.truncate(foff);
+        } else {
+          fb[foff..foff + val.len()].copy_from_slice(&val);
+        }
         if fb == enc {
           continue;
         }
         let fshare = match guard(|| Share::from_bytes(&fb)) {
           Ok(Some(s)) => s,
-          _ => continue,
+          _ => {
+            cx.count("fault_rejected_at_decode", 1);
+            continue;
+          }
         };
         cx.nontrivial(fnv_str(&format!("{}|{}|{}", case, fname, how)));
         for seq in &seqs {
